@@ -364,12 +364,20 @@ class PWC(object):
     def __init__(self, x, y):
         self.X = frl(x)
         self.Y = frl(y)
+        # A: per piece, the summed magnitudes of everything that was added up there (|c1*y1| + |c2*y2| + ...): the scale
+        # against which the rounding error of that piece is judged (a huge value elsewhere must not excuse an error here)
+        self.A = [abs(v) for v in self.Y]
 
     def copy(self):
         m = PWC([], [])
         m.X = list(self.X)
         m.Y = list(self.Y)
+        m.A = list(self.A)
         return m
+
+    def piece_mass(self, t):
+        k = bisect.bisect_right(self.X, t) - 1
+        return self.A[k]
 
     def piece_value(self, t):
         """value on the open piece containing t (t not a breakpoint)"""
@@ -385,14 +393,17 @@ class PWC(object):
     def add(self, o):
         X = sorted(set(self.X) | set(o.X))
         Y = []
+        A = []
         for k in range(len(X) - 1):
             mid = (X[k] + X[k + 1]) / 2
             Y.append(self.piece_value(mid) + o.piece_value(mid))
-        self.X, self.Y = X, Y
+            A.append(self.piece_mass(mid) + o.piece_mass(mid))
+        self.X, self.Y, self.A = X, Y, A
 
     def mul(self, f):
         f = fr(f)
         self.Y = [v * f for v in self.Y]
+        self.A = [v * abs(f) for v in self.A]
 
     def integral(self, a=None, b=None):
         a = self.X[0] if a is None else fr(a)
